@@ -267,6 +267,30 @@ class C12(PipelineCheck):
                 add('type-parameter', 'function-header',
                     'function %s declares type parameters %s, its header in the text reads %r' % (
                         node.name, want, heads[0].strip()[:100]))
+        # override / final modifiers of methods, where the language expresses them
+        for cname, d in ir_classes.items():
+            for fn in d.functions:
+                nm = re.escape(fn.name)
+                if lang in ('kotlin', 'scala'):
+                    hdr = re.compile(r'^(.*)\b(?:fun|def)\b.*?\b%s\b' % nm)
+                else:
+                    hdr = re.compile(r'^([^=.]*?)\b%s\s*\(' % nm)
+                heads = [m_.group(1) for m_ in (hdr.search(ln) for ln in lines) if m_]
+                heads = [h for h in heads if not re.search(r'\b(return|new)\b', h)]
+                if not heads:
+                    continue
+                obl['method-modifiers'] = obl.get('method-modifiers', 0) + 1
+                if lang in ('kotlin', 'scala'):
+                    has = [bool(re.search(r'\boverride\b', h)) for h in heads]
+                    if bool(fn.override) not in has:
+                        add('modifier', 'override', 'method %s.%s: override in program=%s, '
+                            'header(s) %r' % (cname, fn.name, fn.override, heads[:2]))
+                if lang in ('java', 'scala', 'groovy') and fn.body is not None and \
+                        d.class_type != ast.ClassDeclaration.INTERFACE:
+                    has = [bool(re.search(r'\bfinal\b', h)) for h in heads]
+                    if bool(fn.is_final) not in has:
+                        add('modifier', 'final-method', 'method %s.%s: final in program=%s, '
+                            'header(s) %r' % (cname, fn.name, fn.is_final, heads[:2]))
         # names of functions, fields, parameters, variables
         obl['name-inventory'] += 1
         nlit = 0
